@@ -155,6 +155,20 @@ ROUND6 = {
 for _i, _t in ROUND6.items():
     lvl, tech, text, note, ref = CHECKS[_i]
     CHECKS[_i] = (lvl, tech, text + _t, note, ref)
+# additions of the seventh round
+ROUND7 = {
+ "C03": " Nine kinds of wide expression (width 1..72 and beyond) stand in every slot of every expression form, 14 statement constructs hold n parts of one kind, and texts with a real line break / comments that span a line break stand inside blocks.",
+ "C05": " Sources of 15 000 and 120 000 lines are compiled and the processor time compared (at most 24 times); a returned tree stands for the whole text (the tokeniser's end of text is the end of the text); the quoted line is compared exactly.",
+ "C07": " Operations store the result of direct calls of program-defined methods that hand back their input or an item of it.",
+ "C08": " (The prelude's type names no longer collide with its method names; the run reports the share of reference runs that completed and ends as a harness error below 10 %.)",
+ "C09": " A tenth raise kind is a failing % formatting (numeric directive given a text).",
+ "C12": " 寻找 is observed through the distance between its answers for a stored and for an absent value (numbering-free).",
+ "C13": " Every end-to-end literal is evaluated in nine contexts, among them directly before, behind and between other text literals.",
+ "C18": " Run variants put calls that have returned, and that ended on the line number of the next statement (in another module), before the fault and before every call on the chain; fault kinds include calls with the wrong number of arguments.",
+}
+for _i, _t in ROUND7.items():
+    lvl, tech, text, note, ref = CHECKS[_i]
+    CHECKS[_i] = (lvl, tech, text + _t, note, ref)
 checks = []
 na = []
 for p in props:
